@@ -817,7 +817,7 @@ def run(ctx):
     from twisted.names import dns
 
     RD.selftest()
-    for i in ctx.cases(12000, 400000):
+    for i in ctx.cases(12000, 700000):
         run_case(ctx, dns, i, sample=i < 3 * ctx.nshards)
 
 
